@@ -155,6 +155,24 @@ func genC19(t *rapid.T) c19Case {
 	n := rapid.IntRange(2, 4).Draw(t, "ntexts")
 	var c c19Case
 	var prevTree *model.Node
+	if rapid.IntRange(0, 5).Draw(t, "echoLiteral") == 5 {
+		// the very same literal spelling occurs in items of different types in different messages
+		lit := rapid.SampledFrom([]string{"0.1", "3.14", "1e-3", "2.675", "0.3", "16777217", "1.1", "7", "0x7F", "100", "-1", "255"}).Draw(t, "echoLit")
+		kinds := []string{"F4", "F8", "F4", "F8"}
+		if !strings.ContainsAny(lit, ".e") {
+			kinds = []string{"I1", "I8", "F4", "I2", "F8", "I4"}
+			if !strings.HasPrefix(lit, "-") {
+				kinds = append(kinds, "U1", "U8", "B", "A")
+			}
+		}
+		for i := 0; i < n; i++ {
+			k := rapid.SampledFrom(kinds).Draw(t, "echoKind")
+			c.Texts = append(c.Texts, fmt.Sprintf("S%dF%d H->E\n<%s %s %s>\n.\n", i+1, 2*i+1, k, lit, lit))
+			c.Seps = append(c.Seps, rapid.SampledFrom([]string{"", " ", "\n", " // c\n"}).Draw(t, "joiner"))
+		}
+		stats.labelOnly("echoed-literal-across-messages", 1)
+		return c
+	}
 	for i := 0; i < n; i++ {
 		sp := &rapidSpeller{t: t, sizes: rapid.Bool().Draw(t, "withSizes")}
 		msgs, toks := genSMLMessages(t, rapid.SampledFrom([]int{1, 1, 2}).Draw(t, "msgsInText"), sp, treeOpts{Vars: true, Ellipsis: true, Suffix: true, NoDeep: true, MaxDepth: 4, MaxElems: 4, VarPct: 35})
